@@ -550,7 +550,7 @@ func genCancel(r *rand.Rand, i int) *Program {
 // batch: AddAll with rejection, cancellation, purge; stream collection.
 func genBatch(r *rand.Rand, i int) *Program {
 	g := &gen{r: r}
-	p := &Program{Kind: kinds(r), Conc: 1 + r.Intn(3), Queues: []string{qkind(r)}, WFYields: r.Intn(2)}
+	p := &Program{Kind: kinds(r), Conc: 1 + r.Intn(3), Queues: []string{qkind(r)}, WFYields: r.Intn(2), NoIDBatch: r.Intn(3) == 0}
 	n := r.Intn(5)
 	if r.Intn(6) == 0 {
 		n = 0
